@@ -162,7 +162,7 @@ class PushProfileRequest(PushProfile):
         AvpGenDef("supported_features", AVP_TGPP_SUPPORTED_FEATURES, VENDOR_TGPP, type_class=SupportedFeatures),
         AvpGenDef("user_data", AVP_TGPP_CX_USER_DATA, VENDOR_TGPP),
         AvpGenDef("charging_information", AVP_TGPP_CHARGING_INFORMATION, VENDOR_TGPP, type_class=ChargingInformation),
-        AvpGenDef("sip_auth_data_item", AVP_SIP_AUTH_DATA_ITEM, is_required=True, type_class=SipAuthDataItem),
+        AvpGenDef("sip_auth_data_item", AVP_TGPP_3GPP_SIP_AUTH_DATA_ITEM, VENDOR_TGPP, is_required=True, type_class=SipAuthDataItem),
         AvpGenDef("allowed_waf_wwsf_identities", AVP_TGPP_ALLOWED_WAF_WWSF_IDENTITIES, VENDOR_TGPP, type_class=AllowedWafWwsfIdentities),
         AvpGenDef("proxy_info", AVP_PROXY_INFO, type_class=ProxyInfo),
         AvpGenDef("route_record", AVP_ROUTE_RECORD)
